@@ -1352,3 +1352,119 @@ Proof.
   rewrite rev_involutive in M. unfold S in M. rewrite map_map in M.
   unfold xv in M. unfold xval. rewrite M. reflexivity.
 Qed.
+
+(* ------------------------------------------------------------------ storage level: an unset path reads as missing *)
+Lemma bnode_tset_diverge_missing : forall p q v o, diverge q p = true -> bnode q o = BPathErr ->
+  bnode q (Some (tset p v o)) = BPathErr.
+Proof.
+  induction p as [|k r IH]; intros q v o D G; [now rewrite diverge_nil_r in D|].
+  destruct q as [|k' q']; [discriminate|]. rewrite diverge_cons in D. destruct (k' =? k) eqn:E.
+  - assert (k' = k) by lia; subst k'.
+    destruct o as [[| z | l]|]; cbn [tset bnode]; cbn [bnode] in G; try discriminate;
+      rewrite ?lookup_aset_eq; cbn [lookup]; rewrite ?N.eqb_refl; apply IH; auto using bnode_none.
+  - destruct o as [[| z | l]|]; cbn [tset bnode]; cbn [bnode] in G; try discriminate;
+      rewrite ?lookup_aset, ?E; cbn [lookup]; rewrite ?E; auto using bnode_none.
+Qed.
+
+(* JSONDataBag.Unset of a literal path: afterwards the path reads as missing *)
+Lemma unset_reads_missing : forall p l res, lit_path p = true -> p <> [] -> bag_unset_g p l = Some res ->
+  exists l', res = Some l' /\ bag_get p l' = BPathErr.
+Proof.
+  induction p as [|k r IH]; intros l res L NE H; [congruence|].
+  cbn [lit_path] in L. apply andb_prop in L. destruct L as [Lk Lr]. apply negb_true_iff in Lk.
+  destruct r as [|k2 r2].
+  - cbn in H. rewrite Lk in H. injection H as <-. eexists. split; [reflexivity|].
+    cbn [bag_get]. now rewrite lookup_aremove, N.eqb_refl.
+  - rewrite bag_unset_g_unfold, Lk in H. cbn [ukey] in H.
+    destruct (lookup k l) as [[| z | lk]|] eqn:EL; try discriminate;
+      try (injection H as <-; eexists; split; [reflexivity|]; cbn [bag_get]; now rewrite EL).
+    destruct (bag_unset_g (k2 :: r2) lk) as [rs|] eqn:U; [|discriminate].
+    destruct (IH lk rs Lr ltac:(discriminate) U) as (x & -> & Gx). injection H as <-.
+    eexists. split; [reflexivity|]. cbn [bag_get]. rewrite lookup_aset_eq. exact Gx.
+Qed.
+
+Lemma unset_g_keeps_missing : forall p q l res, bag_unset_g p l = Some res -> pdiverge q p = true ->
+  bag_get q l = BPathErr -> exists l', res = Some l' /\ bag_get q l' = BPathErr.
+Proof.
+  induction p as [|k rp IH]; intros q l res H D G.
+  - now rewrite pdiverge_nil_r in D.
+  - destruct q as [|k' q']; [discriminate|]. cbn [pdiverge] in D. destruct rp as [|k2 r2].
+    + rewrite pdiverge_nil_r in D. destruct (is_ph_key k' || is_ph_key k) eqn:P; [discriminate|].
+      apply orb_false_elim in P. destruct P as [_ Pk]. destruct (k' =? k) eqn:E; [discriminate|].
+      cbn in H. rewrite Pk in H. injection H as <-. eexists. split; [reflexivity|].
+      cbn [bag_get] in *. rewrite lookup_aremove, E. exact G.
+    + rewrite bag_unset_g_unfold in H.
+      assert (STEP : forall cur key cur', ukey (k2 :: r2) (Some cur) key = Some cur' ->
+                bag_get (k' :: q') cur = BPathErr -> (key <> k' \/ pdiverge q' (k2 :: r2) = true) ->
+                bag_get (k' :: q') cur' = BPathErr).
+      { intros cur key cur' U Gc C. cbn [ukey] in U. destruct (k' =? key) eqn:E.
+        - assert (k' = key) by lia; subst key. destruct C as [C|C]; [congruence|].
+          destruct q' as [|k3 q3]; [discriminate|]. cbn [bag_get] in Gc |- *.
+          destruct (lookup k' cur) as [[| z | lk]|] eqn:EL; try discriminate;
+            try (injection U as <-; rewrite EL; reflexivity).
+          destruct (bag_unset_g (k2 :: r2) lk) as [rs|] eqn:UU; [|discriminate].
+          destruct (IH (k3 :: q3) lk rs UU C Gc) as (x & -> & Gx). injection U as <-.
+          now rewrite lookup_aset_eq.
+        - assert (LK : forall c, lookup k' c = lookup k' cur -> bag_get (k' :: q') c = BPathErr).
+          { intros c Ec. cbn [bag_get] in Gc |- *. now rewrite Ec. }
+          destruct (lookup key cur) as [[| z | lk]|]; try (injection U as <-; exact Gc); try discriminate.
+          destruct (bag_unset_g (k2 :: r2) lk) as [[x|]|]; try discriminate; injection U as <-; apply LK.
+          + now rewrite lookup_aset, E.
+          + now rewrite lookup_aremove, E. }
+      destruct (is_ph_key k) eqn:Pk.
+      * rewrite orb_true_r in D.
+        assert (FOLD : forall keys cur cur', fold_left (ukey (k2 :: r2)) keys (Some cur) = Some cur' ->
+                  bag_get (k' :: q') cur = BPathErr -> bag_get (k' :: q') cur' = BPathErr).
+        { induction keys as [|key keys IHk]; intros cur cur' F Gc; cbn [fold_left] in F.
+          - now injection F as <-.
+          - destruct (ukey (k2 :: r2) (Some cur) key) as [c1|] eqn:U; [|now rewrite fold_ukey_none in F].
+            eapply IHk; eauto. }
+        destruct (fold_left (ukey (k2 :: r2)) (map fst l) (Some l)) as [l1|] eqn:F; [|discriminate].
+        injection H as <-. eexists. split; [reflexivity|]. eapply FOLD; eauto.
+      * rewrite orb_false_r in D.
+        destruct (ukey (k2 :: r2) (Some l) k) as [l1|] eqn:U; [|discriminate]. injection H as <-.
+        eexists. split; [reflexivity|]. eapply STEP; eauto.
+        destruct (is_ph_key k'); [now right|]. destruct (k' =? k) eqn:E; [now right|left; lia].
+Qed.
+
+(* a delta applied to a databag leaves a missing diverging path missing *)
+Lemma apply_delta_keeps_missing : forall b d b' q, has_path d -> apply_delta b d = Some b' -> q <> [] ->
+  pdiverge q (fst d) = true -> bag_get q b = BPathErr -> bag_get q b' = BPathErr.
+Proof.
+  intros b [p x] b' q HP H NQ D G. cbn in *. unfold apply_delta in H. cbn [fst snd] in H.
+  assert (S : forall y, y <> Null -> Some (bag_set p y b) = Some b' -> bag_get q b' = BPathErr).
+  { intros y NY [= <-]. rewrite bag_get_node by exact NQ. rewrite bag_set_obj by exact HP.
+    apply bnode_tset_diverge_missing; [now apply pdiverge_diverge|]. now rewrite <- bag_get_node. }
+  destruct x as [| z | l].
+  - unfold bag_unset in H. destruct (bag_unset_g p b) as [res|] eqn:U; [|discriminate].
+    destruct (unset_g_keeps_missing _ _ _ _ U D G) as (x & -> & Gx). now injection H as <-.
+  - destruct p; [congruence|]. apply (S (Atom z)); [discriminate|exact H].
+  - destruct p; [congruence|]. apply (S (Obj l)); [discriminate|exact H].
+Qed.
+
+Lemma apply_deltas_keep_missing : forall ds b b' q, Forall has_path ds -> apply_deltas b ds = Some b' -> q <> [] ->
+  (forall d, In d ds -> pdiverge q (fst d) = true) -> bag_get q b = BPathErr -> bag_get q b' = BPathErr.
+Proof.
+  induction ds as [|d r IH]; intros b b' q F H NQ D G; cbn in H.
+  - now injection H as <-.
+  - inversion F; subst. destruct (apply_delta b d) as [b0|] eqn:E; [|discriminate].
+    apply (IH b0 b' q H3 H NQ); [intros d0 I0; apply D; now right|].
+    apply (apply_delta_keeps_missing b d b0 q H2 E NQ); [apply D; now left|exact G].
+Qed.
+
+(* storage-level read-after-write for Unset deltas: an Unset of a literal path, followed by any deltas (Sets and Unsets)
+   on paths diverging from it, leaves the path reading as missing *)
+Theorem unset_stays_missing : forall ds1 d ds2 b b', Forall has_path (ds1 ++ d :: ds2) -> snd d = Null ->
+  lit_path (fst d) = true -> apply_deltas b (ds1 ++ d :: ds2) = Some b' ->
+  (forall d', In d' ds2 -> pdiverge (fst d) (fst d') = true) ->
+  bag_get (fst d) b' = BPathErr.
+Proof.
+  intros ds1 [p x] ds2 b b' F NV L H D. cbn [fst snd] in *. subst x. rewrite apply_deltas_app in H.
+  destruct (apply_deltas b ds1) as [b0|]; [|discriminate]. cbn [apply_deltas] in H.
+  apply Forall_app in F. destruct F as [_ F]. inversion F as [|? ? HP F2]; subst. cbn in HP.
+  destruct (apply_delta b0 (p, Null)) as [b1|] eqn:E; [|discriminate].
+  eapply apply_deltas_keep_missing; eauto.
+  unfold apply_delta in E. cbn [fst snd] in E. unfold bag_unset in E.
+  destruct (bag_unset_g p b0) as [res|] eqn:U; [|discriminate].
+  destruct (unset_reads_missing p b0 res L HP U) as (x & -> & Gx). now injection E as <-.
+Qed.
